@@ -286,6 +286,8 @@ class H(explore.Harness):
         ctxt = '[%s, tokens %s; snapshot local=%s rows=%r; previous hosts %r]' % (
             dialect, 'on' if st.need_tokens else 'off', lk, list(rows), sorted(st.prev_ref))
         part.outcome((len(st.ref), len(set(st.ref) - set(st.prev_ref)), len(set(st.prev_ref) - set(st.ref))))
+        if len(hist) >= 2:
+            part.sample(dict(data, hosts_expected=sorted(st.ref), hosts_before=sorted(st.prev_ref)), limit=2)
         if not st.refresh_ok:
             part.violation('C42/refresh-raised', 'refresh_node_list_and_token_map() returned False %s' % ctxt, data)
             return
